@@ -37,6 +37,7 @@ package phttp
 //@ ensures [method-path-headers-body-untouched] req.Method == old(req.Method) && req.URL.Path == old(req.URL.Path) && req.URL.RawQuery == old(req.URL.RawQuery) && req.Header == old(req.Header) && imp(!b.Config.AnswLog.Enabled && !b.Config.HTTPTrace.DumpEnabled, req.Body == old(req.Body))
 //@ ensures [code-is-the-status-received] imp(calls(b.Client.Do) == 1 && result_of(b.Client.Do, 1) == nil, sample.fields[9] == result_of(b.Client.Do, 0).StatusCode)
 //@ ensures [failed-exchange-carries-its-error] imp(calls(b.Client.Do) == 1 && result_of(b.Client.Do, 1) != nil, sample.err == result_of(b.Client.Do, 1))
+//@ ensures [an-answer-that-breaks-off-while-it-is-read-carries-that-error] imp(calls(io.Copy) == 1 && result_of(io.Copy, 1) != nil, sample.err == result_of(io.Copy, 1))
 //@ ensures [invalid-ammo-is-reported-not-sent] imp(ammo.IsInvalid() && (b.Connect == nil || result_of(b.Connect, 0) == nil), calls(b.Client.Do) == 0 && sample.fields[9] == 0)
 //@ ensures [auto-tag-only-when-enabled-and-wanted] imp(calls(b.Client.Do) == 1, iff(calls(autotag) == 1, b.Config.AutoTag.Enabled && (!b.Config.AutoTag.NoTagOnly || old(sample.tags) == "")))
 //@ ensures [ammo-tag-kept-without-auto-tag] imp(calls(b.Client.Do) == 1 && calls(autotag) == 0 && old(sample.tags) != "", sample.tags == old(sample.tags))
